@@ -22,7 +22,8 @@ RULE = ("(i) exhaustive: 15 IUPAC codes x {A,C,G,T} x {upper,lower} x 4 target k
         "targets (mixed case) x random pos/endpos; (iv) embedded: all concrete kit classes typing instances of their structure at "
         "every rotation inside the flanks, and registry plasmids typed by their registry class at hostile rotations. "
         "Non-trivial = the search returned a match and every group was extracted and compared; distinct = distinct "
-        "(pattern, target text, kind, pos, endpos).")
+        "(pattern, target text, kind, pos, endpos)."
+        " Second session: patterns opening with a self-overlapping literal of >= 4 letters on texts rich in overlapping copies of it; records annotated linear searched as non-linear.")
 ASSUMPTIONS = [
     "pattern letters are upper-case IUPAC codes, groups and runs (the language used by every kit); 'either letter case' is the case of the nucleotides",
     "targets are over ACGT/acgt; 0 <= pos",
